@@ -26,6 +26,7 @@ import (
 	"fmt"
 	"net/url"
 	"strings"
+	"time"
 
 	"github.com/Comcast/rulio/core"
 )
@@ -136,7 +137,14 @@ func (c *CroltSimple) Schedule(ctx *core.Context, work *ScheduledWork) error {
 	core.Log(core.INFO|CRON, ctx, "CroltSimple.Schedule", "body", string(js))
 
 	// Crolt refuses to add a job that exists, and a rule that is
-	// written again comes with a new schedule: replace the job.
+	// written again comes with a new schedule: replace the job.  But
+	// look at the new schedule first: if crolt is going to refuse it,
+	// the rule is not written, and the job of the rule that stays must
+	// stay, too.
+	if err = checkCroltSchedule(job.Schedule); err != nil {
+		core.Log(core.WARN|CRON, ctx, "CroltSimple.Schedule", "id", id, "error", err)
+		return err
+	}
 	if err = c.rem(ctx, job.Account, id); err != nil {
 		return err
 	}
@@ -165,6 +173,26 @@ func croltSchedule(schedule string) string {
 		return schedule[1:]
 	}
 	return schedule
+}
+
+// checkCroltSchedule reports what crolt would say to the schedule: it
+// takes a duration, a time, or a cron expression that has an occurrence
+// to come.
+func checkCroltSchedule(schedule string) error {
+	if _, err := time.ParseDuration(schedule); err == nil {
+		return nil
+	}
+	if _, err := time.Parse(time.RFC3339, schedule); err == nil {
+		return nil
+	}
+	expr, err := parseCronExpression(schedule)
+	if err != nil {
+		return err
+	}
+	if expr.Next(time.Now().UTC()).IsZero() {
+		return NoFutureOccurrence
+	}
+	return nil
 }
 
 // croltProblem turns an answer that says crolt did not do what we
